@@ -50,7 +50,7 @@ def search_jobs(tier, families=None, with_at=False, budget_scale=1.0):
 
 def run_search_family(prop, tier, props_arg, level="model_checking", families=None, with_at=False,
                       budget_scale=1.0, subcmd="search", extra_args=None, rule=None, assumptions=None,
-                      module="MC_Search", extra_jobs=None):
+                      module="MC_Search", extra_jobs=None, stages=None, per_output=None):
     """Generic plan: TLC generator jobs (one per family shard) -> harness replay -> classification.
     extra_jobs: additional (module, constants, subcmd) generator jobs."""
     t0 = time.time()
@@ -63,6 +63,7 @@ def run_search_family(prop, tier, props_arg, level="model_checking", families=No
                 c.pop("WithAt", None)
         jobs += extra_jobs or []
         results = []
+        stage_results = []
 
         def mk(fam, consts, i, mod, sub):
             def run():
@@ -74,6 +75,11 @@ def run_search_family(prop, tier, props_arg, level="model_checking", families=No
                 fp = os.path.join(work, f"fail_{i}.ndjson")
                 cmd = [vh, sub, "-in", out, "-props", props_arg, "-report", rp, "-fail", fp] + (extra_args or [])
                 p = subprocess.run(cmd, capture_output=True, text=True, timeout=3000)
+                if per_output and p.returncode == 0:
+                    try:
+                        stage_results.append(per_output(vh, work, out, i, fam))
+                    except Machinery as e:
+                        stage_results.append({"machinery": [str(e)]})
                 os.remove(out)
                 if p.returncode != 0:
                     r.error = f"harness exit {p.returncode}: {p.stderr[-2000:]}"
@@ -82,7 +88,10 @@ def run_search_family(prop, tier, props_arg, level="model_checking", families=No
             return run
 
         fns = [mk(fam, consts, i, mod, sub) for i, (fam, consts, mod, sub) in enumerate(jobs)]
-        results = vlib.run_parallel(fns, 4)
+        stage_fns = [(lambda st=st: ("stage", st(vh, work))) for st in (stages or [])]
+        allres = vlib.run_parallel(fns + stage_fns, 4)
+        results = [r for r in allres if r[0] != "stage"]
+        stage_results += [r[1] for r in allres if r[0] == "stage"]
         machinery = []
         states = trans = 0
         agg = {"patterns": 0, "cases": 0, "calls": 0, "nontrivial": 0, "spec_gaps": 0, "by_strategy": {}, "fail_by_strategy": {}}
@@ -109,10 +118,27 @@ def run_search_family(prop, tier, props_arg, level="model_checking", families=No
             gaps += (rep.get("gap_samples") or [])[:3]
             machinery += rep.get("machinery_errors") or []
             fail_paths.append(fp)
+        stage_info = {}
+        ntraces = 0
+        for sr in stage_results:
+            if not sr:
+                continue
+            machinery += sr.get("machinery") or []
+            states += sr.get("states", 0)
+            trans += sr.get("transitions", 0)
+            ntraces += sr.get("traces", 0)
+            for k, v in (sr.get("info") or {}).items():
+                if isinstance(v, (int, float)) and isinstance(stage_info.get(k), (int, float)):
+                    stage_info[k] += v
+                else:
+                    stage_info.setdefault(k, v)
+            if sr.get("fail_path"):
+                fail_paths.append(sr["fail_path"])
         kf, known_hit, violations, total = vlib.classify(fail_paths, prop)
         violations = [v for v in violations if v["prop"] == prop]
         coverage = {
-            "states": states, "transitions": trans, "traces_validated_against_impl": agg["cases"],
+            "states": states, "transitions": trans, "traces_validated_against_impl": agg["cases"] + ntraces,
+            "stages": stage_info,
             "samples": samples[:10] or [{"note": "no sample"}],
             "evaluations": agg["calls"], "distinct_nontrivial": agg["nontrivial"],
             "rule": rule or ("TLC enumerates one shard per pattern family of spec/Universe.tla and, per pattern, every haystack "
@@ -139,7 +165,95 @@ def run_search_family(prop, tier, props_arg, level="model_checking", families=No
         shutil.rmtree(work, ignore_errors=True)
 
 
+def tlc_model_stage(name, module, constants, cfg_body, workers=8, timeout=3000, expect_violation=False):
+    """A design-level model-checking stage: TLC must find the model's invariants and properties true
+    (or, for a negative control, must find the stated violation)."""
+    def run(vh, work):
+        out = os.path.join(work, f"model_{name}.out")
+        r = vlib.run_tlc(module, constants, cfg_body, out, workers=workers, timeout=timeout)
+        res = {"states": r.distinct, "transitions": r.generated,
+               "info": {f"model_{name}": {"module": module, "constants": constants, "distinct_states": r.distinct,
+                                         "states_generated": r.generated, "depth": r.depth, "wall_s": round(r.wall, 1),
+                                         "result": "violation" if r.violation else ("error" if r.error else "ok")}}}
+        if expect_violation:
+            if not r.violation:
+                res["machinery"] = [f"negative control {name}: TLC did not find the expected violation ({r.error})"]
+            res["states"] = res["transitions"] = 0
+        elif r.violation:
+            res["machinery"] = [f"design model {module} violates its own invariant (model error, not a verdict on the code): {r.violation[:600]}"]
+        elif r.error:
+            res["machinery"] = [f"TLC error in {module}: {r.error[:600]}"]
+        return res
+    return run
+
+
+ITER_CFG = "SPECIFICATION Spec\nINVARIANTS ImplRefinesStd RplIsStd WellFormed\n"
+
+
+def iter_model_stages(tier):
+    q = tier == "quick"
+    st = [tlc_model_stage("MatchIter", "MC_MatchIter", {"N": 3 if q else 4, "Adv": "rune"},
+                          "CONSTANT Lims <- MCLims\n" + ITER_CFG + ("PROPERTIES Monotone Termination\n" if q else "PROPERTY Monotone\n"),
+                          workers=8),
+          tlc_model_stage("MatchIter_byte_control", "MC_MatchIter", {"N": 2, "Adv": "byte"},
+                          "CONSTANT Lims <- MCLims\n" + ITER_CFG, workers=2, expect_violation=True)]
+    return st
+
+
+def iter_trace_stage(prop, max_outputs=3, maxpat=120):
+    """Per TLC output: record the nine iteration loops on pumped inputs (hook H-iter) and validate the trace."""
+    count = {"n": 0}
+
+    def per_output(vh, work, out, i, fam):
+        if count["n"] >= max_outputs or fam == "EXPAND":
+            return None
+        count["n"] += 1
+        tr = os.path.join(work, f"iter_{i}.ndjson")
+        rp = os.path.join(work, f"iter_{i}.json")
+        p = subprocess.run([vh, "itertrace", "-in", out, "-out", tr, "-report", rp, "-maxpat", str(maxpat)],
+                           capture_output=True, text=True, timeout=1200)
+        if p.returncode != 0:
+            raise Machinery("itertrace: " + p.stderr[-500:])
+        rep = vlib.read_report(rp)
+        tout = os.path.join(work, f"iter_{i}.tlc")
+        scratch = tempfile.mkdtemp(prefix="vtr_")
+        try:
+            shutil.copy(tr, os.path.join(scratch, "iter.ndjson"))
+            r = vlib.run_tlc("Trace_MatchIter", {"TraceFile": "iter.ndjson"}, "SPECIFICATION Spec\nPOSTCONDITION Accepted\n",
+                             tout, workers=1, timeout=1200, scratch=scratch)
+        finally:
+            shutil.rmtree(scratch, ignore_errors=True)
+        res = {"states": r.distinct, "transitions": r.generated, "traces": rep["traces"],
+               "info": {"iter_traces": rep["traces"], "iter_events": rep["events"], "iter_iterations": rep["iterations"]}}
+        txt = open(tout, errors="replace").read()
+        if "Postcondition Accepted" in txt and "is false" in txt:
+            # the first unexplained line is line number = depth reached
+            lines = open(tr).read().splitlines()
+            k = r.depth
+            ctx = None
+            for j in range(min(k, len(lines)) - 1, -1, -1):
+                d = json.loads(lines[j])
+                if d["ev"] == "begin":
+                    ctx = d
+                    break
+            bad = json.loads(lines[k - 1]) if 0 < k <= len(lines) else {}
+            fp = os.path.join(work, f"iterfail_{i}.ndjson")
+            with open(fp, "w") as fh:
+                fh.write(json.dumps({"prop": prop, "api": f"loop{(ctx or {}).get('loop')}", "mode": "first",
+                                     "pattern": (ctx or {}).get("pat", "?"), "hay": (ctx or {}).get("hay", ""),
+                                     "args": f"trace n={(ctx or {}).get('n')}", "want": "an iteration allowed by Trace_MatchIter",
+                                     "got": json.dumps({kk: bad.get(kk) for kk in ("ev", "pos", "s", "e", "emit", "np", "count")})}) + "\n")
+            res["fail_path"] = fp
+        elif r.error or r.violation:
+            res["machinery"] = [f"Trace_MatchIter: {(r.error or r.violation)[:500]}"]
+        return res
+    return per_output
+
+
 def c_search(prop, tier):
+    if prop == "C04":
+        return run_search_family(prop, tier, prop, stages=iter_model_stages(tier), per_output=iter_trace_stage(prop),
+                                 budget_scale=0.6 if tier == "quick" else 1.0)
     return run_search_family(prop, tier, prop)
 
 
